@@ -14,7 +14,17 @@ def main():
     import implib
     cases = json.load(open(fin))
     outs = []
+    prewarm = getattr(mod, "PREWARM", True)
     for case in cases:
+        if prewarm:
+            # The same case is first executed with every number given as a float, in the same process, and the result
+            # thrown away: answers for exact data must not depend on what the process computed before (memo tables keyed
+            # by equal-comparing numbers or by degree only).  Failures and time-outs of this pre-run are ignored.
+            implib.CONV = float
+            try:
+                implib.capture(lambda: mod.impl(case), seconds=20)
+            finally:
+                implib.CONV = None
         implib.FLOATS.clear()
         try:
             out = mod.impl(case)
